@@ -299,6 +299,7 @@ def run(case):
             got2 = m.data
         if not np.array_equal(np.asarray(got), np.asarray(got2)):
             raise Violation("reread-differs", "two consecutive reads of HistParametricModel.data differ")
+        handed_out, handed_copy = got, np.array(got, copy=True)  # what was handed out is the caller's: it must not change when the model moves on
         for step in case["then"]:
             if step == "set_params":
                 p = [float(v) for v in case["params2"]]
@@ -325,6 +326,14 @@ def run(case):
             with guard("read"):
                 got = m.data
             compare(f"HistParametricModel.data after {step}", got, fam, p, edges, method)
+            if isinstance(handed_out, np.ndarray) and not np.array_equal(handed_out, handed_copy):
+                raise Violation("handed-out-array-changed", f"the array returned by HistParametricModel.data before {step} has changed: {handed_copy.tolist()} -> {np.asarray(handed_out).tolist()}")
+            if case.get("passing") in ("same_list", "same_array") and isinstance(got, np.ndarray) and got.flags.writeable:
+                # ... and the caller may scale what it got: the next read must not be affected
+                got *= 3.0
+                with guard("read"):
+                    again = m.data
+                compare(f"HistParametricModel.data after {step}, after the caller scaled the array it had been given", again, fam, p, edges, method)
     else:
         kafe2 = _k("kafe2")
         n_in, n_out = case["n_fill"], case["n_out"]
